@@ -272,6 +272,81 @@ theorem gauge_zero (cfg : Cfg) (ops : List Op) :
   rw [inv.stoppedEmpty hs] at this
   simpa [lens] using this
 
+/-- what a burst of enqueues at one instant does to the history of accepted events and to `ups` -/
+theorem enqs_effect (cfg : Cfg) : ∀ (es : List (Ev × List Srv)) (s : St),
+    let s' := (es.map fun p => Op.enq p.1 p.2).foldl (step cfg) s
+    s'.now = s.now ∧ s'.stopped = s.stopped ∧
+    s'.accepted = s.accepted ++ (if s.stopped then [] else es.map fun p => { p.1 with t := s.now }) ∧
+    s'.ctr.ups = s.ctr.ups + (if s.stopped then 0 else es.length) := by
+  intro es
+  induction es with
+  | nil => intro s; cases h : s.stopped <;> simp [h]
+  | cons p es ih =>
+    intro s
+    simp only [List.map_cons, List.foldl_cons]
+    by_cases hs : s.stopped = true
+    · have he : step cfg s (Op.enq p.1 p.2) = { s with panicked := true } := by
+        simp only [step, enq]; exact enq_stopped_eq cfg s _ p.2 hs
+      rw [he]
+      obtain ⟨i1, i2, i3, i4⟩ := ih { s with panicked := true }
+      refine ⟨i1, i2, ?_, ?_⟩
+      · rw [i3]; simp [hs]
+      · rw [i4]; simp [hs]
+    · obtain ⟨i1, i2, i3, i4⟩ := ih (step cfg s (Op.enq p.1 p.2))
+      have hs : s.stopped = false := by simpa using hs
+      have e1 : (step cfg s (Op.enq p.1 p.2)).now = s.now := (enq_now cfg s _ p.2 hs).1
+      have e2 : (step cfg s (Op.enq p.1 p.2)).stopped = false := enq_stopped cfg s _ p.2 hs
+      have e3 : (step cfg s (Op.enq p.1 p.2)).accepted = s.accepted ++ [{ p.1 with t := s.now }] :=
+        enq_accepted cfg s _ p.2 hs
+      have e4 : (step cfg s (Op.enq p.1 p.2)).ctr.ups = s.ctr.ups + 1 := (enq_ctr cfg s _ p.2 hs).1
+      refine ⟨by rw [i1, e1], by rw [i2, e2, hs], ?_, ?_⟩
+      · rw [i3, e2, e3, e1]; simp [hs]
+      · rw [i4, e2, e4]; simp [hs]; omega
+
+/-- **enqueue_order_independent** — concurrent `EnqueueEvent` calls are some linearisation of the
+same enqueues.  For every history and every two orders of a burst of enqueues (any destinations,
+any sizes, any server behaviour), the accepted events are the same multiset, `ups` is the same,
+`downs + pending` is the same, and for every destination the events sent or still waiting are
+the same multiset: no order of the atomic enqueue steps loses, duplicates or misroutes an event. -/
+theorem enqueue_order_independent (cfg : Cfg) (pre : List Op) (es1 es2 : List (Ev × List Srv)) (h : es1.Perm es2) :
+    let s1 := run cfg (pre ++ es1.map fun p => Op.enq p.1 p.2)
+    let s2 := run cfg (pre ++ es2.map fun p => Op.enq p.1 p.2)
+    s1.accepted.Perm s2.accepted ∧ s1.ctr.ups = s2.ctr.ups ∧
+    s1.ctr.downs + pendingCount s1 = s2.ctr.downs + pendingCount s2 ∧
+    ∀ k, (sentD s1.disps k ++ pendingOf s1 k).Perm (sentD s2.disps k ++ pendingOf s2 k) := by
+  intro s1 s2
+  have inv1 := invA_run cfg (pre ++ es1.map fun p => Op.enq p.1 p.2)
+  have inv2 := invA_run cfg (pre ++ es2.map fun p => Op.enq p.1 p.2)
+  have r1 : s1 = (es1.map fun p => Op.enq p.1 p.2).foldl (step cfg) (run cfg pre) := by
+    simp [s1, run, List.foldl_append]
+  have r2 : s2 = (es2.map fun p => Op.enq p.1 p.2).foldl (step cfg) (run cfg pre) := by
+    simp [s2, run, List.foldl_append]
+  obtain ⟨_, _, a1, u1⟩ := enqs_effect cfg es1 (run cfg pre)
+  obtain ⟨_, _, a2, u2⟩ := enqs_effect cfg es2 (run cfg pre)
+  rw [← r1] at a1 u1
+  rw [← r2] at a2 u2
+  have hacc : s1.accepted.Perm s2.accepted := by
+    rw [a1, a2]
+    apply List.Perm.append_left
+    cases (run cfg pre).stopped
+    · simpa using h.map _
+    · simp
+  have hups : s1.ctr.ups = s2.ctr.ups := by rw [u1, u2, h.length_eq]
+  refine ⟨hacc, hups, ?_, ?_⟩
+  · have g1 := inv1.gauge
+    have g2 := inv2.gauge
+    show s1.ctr.downs + lens s1.batches = s2.ctr.downs + lens s2.batches
+    have : s1.ctr.ups = s1.ctr.downs + lens s1.batches := g1
+    have : s2.ctr.ups = s2.ctr.downs + lens s2.batches := g2
+    omega
+  · intro k
+    have p1 : pendingOf s1 k = evsOf (AList.get s1.batches k) := by
+      unfold pendingOf evsOf; cases AList.get s1.batches k <;> rfl
+    have p2 : pendingOf s2 k = evsOf (AList.get s2.batches k) := by
+      unfold pendingOf evsOf; cases AList.get s2.batches k <;> rfl
+    rw [p1, p2, inv1.acct k, inv2.acct k]
+    exact hacc.filter _
+
 /-- every `sendBatch` the transmission ever started has returned -/
 theorem never_hangs (cfg : Cfg) (ops : List Op) : (run cfg ops).complete = true := (invA_run cfg ops).complete
 
